@@ -68,4 +68,14 @@ def membersTrace (s : Schema) : Db → Members.State → List Op → Option Memb
     | none => none
     | some m' => membersTrace s (step s db op).1 m' ops
 
+/-- The (crate, track) pairs an operation is ABOUT (C08's frame property: the membership of every other pair is
+unchanged).  `f` = the forest before the call (removing a crate is about its whole sub-tree). -/
+def touches (f : Forest.Forest) : Op → Id × Id → Bool
+  | .addTrack c t, p => p.1 == c && p.2 == t
+  | .removeTrackFrom c t, p => p.1 == c && p.2 == t
+  | .clearTracks c, p => p.1 == c
+  | .removeTrack t, p => p.2 == t
+  | .removeCrate c, p => p.1 == c || f.isAncestor c p.1
+  | _, _ => false
+
 end EngineModel.Api.CratesV1
